@@ -5,7 +5,8 @@ int main(void)
 {
   scenario();
   VF_ASSERT(!__vf_exc_pending, "C16: send does not throw"); __vf_exc_pending = 0;
-  VF_ASSERT(op == 2 ? ok == j : ok == 1, "C16: every message of the operation is reported as sent");
+  { int refused = 0; for (int k = 0; k < NREC; k++) if (((uint32_t)k < p_n && !p_ok[k]) || ((uint32_t)k < c_att_n && !c_ok[k])) refused = 1;
+    if (!refused) VF_ASSERT(op == 2 ? ok == j : ok == 1, "C16: every message of the operation is reported as sent (when the store accepted every put)"); }
   VF_ASSERT(e_n == j, "C16: every message of the operation is encoded exactly once");
 
   /* oracle (statement of C16).  A message is a retransmission when it already carries its original MsgSeqNum (under
@@ -39,7 +40,7 @@ int main(void)
     int wrote = 0; for (int i = 0; i < J; i++) if (i < j && !(pre34[i] && (!always || pre43[i]))) wrote = 1;
     if (wrote)
 #endif
-    VF_ASSERT(c_valid && c_snd == vf_sess_next_send(SESS) && c_rcv == vf_sess_next_recv(SESS), "C16: after the send the control record equals the session's numbers");
+    VF_ASSERT(ctl_matches(vf_sess_next_send(SESS), vf_sess_next_recv(SESS)), "C16: after the send the control record equals the session's numbers (a refused control put leaves the last accepted record)");
   } else VF_ASSERT(c_n == 0 && p_n == 0, "C16: no persister, nothing stored");
   VF_ASSERT(!vf_spin_bad, "C16: lock discipline");
   VF_REACH();
